@@ -177,7 +177,7 @@ func main() {
 		}
 	}
 
-	nDirect := o.Count(1300, 40000)
+	nDirect := o.Count(1300, 20000)
 	rd := r.Fork("direct")
 	var uni *uniSpec
 	for i := 0; i < nDirect; i++ {
